@@ -260,12 +260,12 @@ Definition iter_step (orc : oracle) (chunk : nat) (st : rstate) (valid : list by
 Fixpoint iter_loop (fuel : nat) (orc : oracle) (chunk : nat) (st : rstate) (valid : list bytes)
          (encodings : list (option pv)) (prev_level : nat) (acc : list record) : list record * term :=
   match fuel with
-  | O => (rev acc, TFuel)
+  | O => (frev acc, TFuel)
   | S f =>
       match iter_step orc chunk st valid encodings prev_level with
-      | SDone => (rev acc, TEnd)
-      | SParse l c => (rev acc, TParse l c)
-      | SExc e => (rev acc, TExc e)
+      | SDone => (frev acc, TEnd)
+      | SParse l c => (frev acc, TParse l c)
+      | SExc e => (frev acc, TExc e)
       | SYield r st' valid' encs' prev' => iter_loop f orc chunk st' valid' encs' prev' (r :: acc)
       end
   end.
